@@ -22,6 +22,7 @@ from .. import runner
 
 ID = 'C09'
 LEVEL = 'exploration'
+QUICK_SCALE = 3      # the quick tier was enlarged by this factor after MIN_OBS['quick'] was measured
 RULE = ("kind=paths: a case is a batch of (remote path, directory pre-content) pairs, each run through 13 chains "
         "(all 11 permutations/sub-chains of Default, KeepDirectory, NumberDuplicate that contain Default, called "
         "through naming.chain_strategies, plus SharesManager.calculate_download_path with its default "
@@ -573,13 +574,13 @@ def _run_schedule(params: dict) -> dict:
 # module API
 
 def cases(tier: str, seed: int) -> list[dict]:
-    n_batches = 100 if tier == 'quick' else 4800
+    n_batches = 300 if tier == 'quick' else 4800
     n_batches = max(n_batches, -(-len(_ENUM) // PAIRS_PER_BATCH))
     out: list[dict] = []
     for i in range(n_batches):
         out.append({'kind': 'paths', 'case': i, 'seed': seed, 'start': i * PAIRS_PER_BATCH, 'n': PAIRS_PER_BATCH})
     # workload B: interleavings of 2-3 downloads of equally named files (vf/c09sched.py)
-    n_sched = 200 if tier == 'quick' else 8000
+    n_sched = 600 if tier == 'quick' else 8000
     for i in range(n_sched):
         out.append({'kind': 'schedule', 'case': len(out), 'seed': seed, 'i': i})
     return out
